@@ -175,6 +175,22 @@ func TestVerifC03(t *testing.T) {
 		if plus && len(c.Classes) > 0 && c.Classes[0].Name == vpClassName && c.Classes[0].Controller != vpCtlrName {
 			plus = false // known finding D35 (C05): Plus + foreign-controlled configured class panics the generator
 		}
+		// header modifier values with a dollar behind a backslash (NGINX has no escape for the dollar): must be rejected, not
+		// rendered into an interpolated argument
+		if r.Chance(1, 4) {
+			for ri := range c.Routes {
+				for ui := range c.Routes[ri].Rules {
+					for fi := range c.Routes[ri].Rules[ui].Filters {
+						f := &c.Routes[ri].Rules[ui].Filters[fi]
+						if len(f.Set) > 0 {
+							f.Set[0][1] = "USD\\$amount"
+						} else if len(f.Add) > 0 {
+							f.Add[0][1] = "\\${total}"
+						}
+					}
+				}
+			}
+		}
 		var extra []client.Object
 		var tags []string
 		withParams := false
